@@ -18,6 +18,7 @@ pub mod verif_rlp {
 
 use crate::{account::Signature, serialization::JsonObject};
 use ethdigest::Digest;
+use ethnum::U256;
 use serde::{
     de::{self, Deserializer},
     Deserialize,
@@ -67,9 +68,17 @@ impl<'de> Deserialize<'de> for Transaction {
                 serde_json::from_value(json.into()).map_err(de::Error::custom)?,
             ))
         } else {
-            Ok(Transaction::Legacy(
-                serde_json::from_value(json.into()).map_err(de::Error::custom)?,
-            ))
+            let tx: LegacyTransaction =
+                serde_json::from_value(json.into()).map_err(de::Error::custom)?;
+            // NOTE: EIP-155 encodes the chain ID in the signature's V-value as
+            // `35 + 2 * chain_id + y_parity`, which must fit in 256 bits.
+            let max_chain_id = (U256::MAX - 36) / 2;
+            if tx.chain_id.is_some_and(|chain_id| chain_id > max_chain_id) {
+                return Err(de::Error::custom(
+                    "chain ID too large for a legacy transaction with EIP-155 replay protection",
+                ));
+            }
+            Ok(Transaction::Legacy(tx))
         }
     }
 }
